@@ -407,13 +407,15 @@ func (d Dialer) Upgrade(conn io.ReadWriter, u *url.URL) (br *bufio.Reader, hs Ha
 			//   "The server selects one or none of the acceptable protocols
 			//   and echoes that value in its handshake to indicate that it has
 			//   selected that protocol."
+			var requested bool
 			for _, want := range d.Protocols {
 				if string(v) == want {
 					hs.Protocol = want
+					requested = true
 					break
 				}
 			}
-			if hs.Protocol == "" {
+			if !requested {
 				// Server echoed subprotocol that is not present in client
 				// requested protocols.
 				err = ErrHandshakeBadSubProtocol
